@@ -47,10 +47,12 @@ def truth(v):
 
 
 class Evaluator:
-    def __init__(self, atom: Optional[Callable[[ast.AST, dict], Optional[bool]]] = None, where: str = ""):
+    def __init__(self, atom: Optional[Callable[[ast.AST, dict], Optional[bool]]] = None, where: str = "", value_boolops: bool = False):
         self.atom = atom or (lambda e, env: None)
         self.where = where
         self.states = 0
+        # value_boolops: `a or b` / `a and b` evaluate to the operand Python would return (needed where the *value* is stored, e.g. `int(x) or None`)
+        self.value_boolops = value_boolops
 
     # ------------------------------------------------------------------ expressions
     def eval(self, e, env):
@@ -74,6 +76,14 @@ class Evaluator:
         if isinstance(e, ast.BoolOp):
             vals = [self.eval(x, env) for x in e.values]
             ts = [truth(v) for v in vals]
+            if self.value_boolops:
+                stop = isinstance(e.op, ast.Or)
+                for v, t in zip(vals, ts):
+                    if t is None:
+                        return UNKNOWN
+                    if t is stop:
+                        return v
+                return vals[-1]
             if isinstance(e.op, ast.And):
                 if any(t is False for t in ts):
                     return False
